@@ -327,11 +327,7 @@ package caldav
 //@   |   && (forall j :: 0 <= j && j < #i ==> calendarMultiget.Hrefs[j].Path == multiGet.Paths[j])
 
 //@ -- C08 server side: the backend is handed the request the wire structs denote, with the request path unchanged
-//@ func caldav.(*backend).propFindCalendarObject(b, ctx, propfind, co) (resp, err)
-//@   trusted C11
-//@   requires R1: b != nil && propfind != nil && co != nil
-//@   ensures P1: err == nil ==> resp != nil && len(resp.Hrefs) == 1 && resp.Hrefs[0].Path == co.Path
-//@   ensures P2: err != nil ==> okErr(err)
+//@ -- (the contract of propFindCalendarObject is with the PROPFIND contracts below)
 //@ func caldav.(*Handler).handleQuery(h, r, w, query) (err)
 //@   reveal propRelC
 //@   requires R1: h != nil && h.Backend != nil && validReq(r) && w != nil && wstatus(w) == 0 && query != nil
@@ -341,6 +337,7 @@ package caldav
 //@   ensures Q2: err != nil ==> okErr(err)
 //@   ensures Q3: mutations == old(mutations)
 //@   ensures Q4: err == nil ==> wstatus(w) == 207
+//@   ensures Q5: wstatus(w) == 0 || wstatus(w) == 207
 //@   loop 1 invariant I1: qcoCalls == 1 && qcoPath == r.URL.Path && qcoQuery == &q && compLevel(query.Filter.CompFilter, q.CompFilter) && mutations == old(mutations) && wstatus(w) == 0
 //@   |   && (query.Prop != nil && decodedOk(query.Prop, "calendarDataReq") ==> dataRelC(q.CompRequest, decoded(query.Prop, "calendarDataReq")))
 //@   loop 1 invariant I2: cap(resps) == 0 || fresh(resps)
@@ -356,6 +353,7 @@ package caldav
 //@   ensures G3: err == nil ==> (forall j :: 0 <= j && j < len(multiget.Hrefs) ==> answersHrefC(servedMS.Responses[j], h.Backend, ctx, multiget.Hrefs[j].Path, gcoReq))
 //@   ensures G4: err != nil ==> okErr(err)
 //@   ensures G5: mutations == old(mutations)
+//@   ensures G6: wstatus(w) == 0 || wstatus(w) == 207
 //@   loop 1 invariant I1a: mutations == old(mutations) && wstatus(w) == 0
 //@   loop 1 invariant I1b: (cap(resps) == 0 || fresh(resps)) && len(resps) == #i
 //@   loop 1 invariant I1c: gcoCalls >= 0 && (gcoCalls > 0 ==> gcoReq == &dataReq) && (#i > 0 ==> gcoCalls > 0)
@@ -388,24 +386,173 @@ package caldav
 //@ -- and reaches no mutating backend method.
 //@ spec servedCB(b *backend) bool = b != nil && b.Backend != nil && mountOK(b.Prefix)
 //@ spec lvlC(b *backend, r *http.Request) int = levelOf(b.Prefix, r.URL.Path)
-//@ spec local4xx(e error) bool = !fromBackend(e) && !fromEnv(e) && 400 <= httpCode(e) && httpCode(e) < 500
+//@ spec local4xx(e error) bool = 400 <= httpCode(e) && httpCode(e) < 500
 //@ func caldav.(*backend).Mkcol(b, r) (err)
 //@   requires R1: servedCB(b) && validReq(r)
 //@   allocates
 //@   -- collection creation is accepted only at collection depth and refused with 403 elsewhere
-//@   ensures M1: lvlC(b, r) != 3 ==> httpCode(err) == 403 && local4xx(err) && mutations == old(mutations) && ccalCalls == old(ccalCalls)
-//@   ensures M2: lvlC(b, r) == 3 && (err == nil || fromBackend(err)) ==> ccalCalls == old(ccalCalls) + 1 && ccalCal != nil && ccalCal.Path == r.URL.Path && mutations == old(mutations) + 1
-//@   ensures M3: err != nil ==> fromBackend(err) || (local4xx(err) && mutations == old(mutations))
+//@   ensures M1: lvlC(b, r) != 3 ==> httpCode(err) == 403 && mutations == old(mutations) && ccalCalls == old(ccalCalls)
+//@   -- at collection depth: either exactly one CreateCalendar for the request path, or a local 4xx and no backend mutation (C13)
+//@   ensures M2: lvlC(b, r) == 3 ==> (ccalCalls == old(ccalCalls) + 1 && ccalCal != nil && ccalCal.Path == r.URL.Path && mutations == old(mutations) + 1 && (err == nil || beErr(err)))
+//@   |   || (ccalCalls == old(ccalCalls) && mutations == old(mutations) && err != nil && local4xx(err))
+//@   ensures M3: err != nil ==> beErr(err) || local4xx(err)
 //@ func caldav.(*backend).Delete(b, r) (err)
 //@   requires R1: servedCB(b) && validReq(r)
 //@   ensures D1: dcoCalls == old(dcoCalls) + 1 && dcoPath == r.URL.Path && mutations == old(mutations) + 1
 //@   -- the operation belonging to the level: only a calendar object can be deleted through DeleteCalendarObject
 //@   ensures D2-level: lvlC(b, r) != 4 ==> mutations == old(mutations)
-//@   ensures D3: err != nil ==> fromBackend(err)
+//@   ensures D3: err != nil ==> beErr(err)
 //@ func caldav.(*backend).Options(b, r) (caps, allow, err)
 //@   requires R1: servedCB(b) && validReq(r)
 //@   allocates
 //@   ensures O1: lvlC(b, r) != 4 ==> err == nil && gcoCalls == old(gcoCalls) && len(allow) == 5
 //@   ensures O2: lvlC(b, r) == 4 ==> gcoCalls == old(gcoCalls) + 1 && gcoPath == r.URL.Path
-//@   ensures O3: err != nil ==> fromBackend(err)
+//@   ensures O3: err != nil ==> beErr(err)
 //@   ensures O4: mutations == old(mutations)
+
+//@ -- PROPFIND (C12 level -> operation and the foreign principal / home-set guard; C11 scope by Depth; C13 errors)
+//@ spec oneHref(resp *internal.Response, path string) bool = resp != nil && len(resp.Hrefs) == 1 && resp.Hrefs[0].Path == path && resp.Status == nil
+//@ spec pfErr(e error) bool = beErr(e) || httpCode(e) == 400
+//@ func caldav.(*backend).propFindRoot(b, ctx, propfind) (resp, err)
+//@   requires R1: b != nil && b.Backend != nil && propfind != nil
+//@   allocates
+//@   ensures F1: err == nil ==> fresh(resp) && oneHref(resp, calPrincipal(b.Backend, ctx))
+//@   ensures F2: err != nil ==> pfErr(err)
+//@   ensures F3: mutations == old(mutations)
+//@ func caldav.(*backend).propFindUserPrincipal(b, ctx, propfind) (resp, err)
+//@   requires R1: b != nil && b.Backend != nil && propfind != nil
+//@   allocates
+//@   ensures F1: err == nil ==> fresh(resp) && oneHref(resp, calPrincipal(b.Backend, ctx))
+//@   ensures F2: err != nil ==> pfErr(err)
+//@   ensures F3: mutations == old(mutations)
+//@ func caldav.(*backend).propFindHomeSet(b, ctx, propfind) (resp, err)
+//@   requires R1: b != nil && b.Backend != nil && propfind != nil
+//@   allocates
+//@   ensures F1: err == nil ==> fresh(resp) && oneHref(resp, calHomeSet(b.Backend, ctx))
+//@   ensures F2: err != nil ==> pfErr(err)
+//@   ensures F3: mutations == old(mutations)
+//@ func caldav.(*backend).propFindCalendar(b, ctx, propfind, cal) (resp, err)
+//@   requires R1: b != nil && b.Backend != nil && propfind != nil && cal != nil
+//@   allocates
+//@   ensures F1: err == nil ==> fresh(resp) && oneHref(resp, cal.Path)
+//@   ensures F2: err != nil ==> pfErr(err)
+//@   ensures F3: mutations == old(mutations)
+//@ func caldav.(*backend).propFindCalendarObject(b, ctx, propfind, co) (resp, err)
+//@   requires R1: b != nil && b.Backend != nil && propfind != nil && co != nil
+//@   allocates
+//@   ensures F1: err == nil ==> fresh(resp) && oneHref(resp, co.Path)
+//@   ensures F2: err != nil ==> pfErr(err)
+//@   ensures F3: mutations == old(mutations)
+//@ func caldav.(*backend).propFindAllCalendarObjects(b, ctx, propfind, cal) (resps, err)
+//@   requires R1: b != nil && b.Backend != nil && propfind != nil && cal != nil
+//@   allocates
+//@   -- one response per object the backend lists for the calendar, in order, under the backend's path
+//@   ensures A1: err == nil ==> lcoPath == cal.Path && len(resps) == len(lcoRes) && (forall j :: 0 <= j && j < len(resps) ==> len(resps[j].Hrefs) == 1 && resps[j].Hrefs[0].Path == lcoRes[j].Path)
+//@   ensures A2: err != nil ==> pfErr(err)
+//@   ensures A3: mutations == old(mutations)
+//@   loop 1 invariant I1: len(resps) == #i && (cap(resps) == 0 || fresh(resps)) && lcoRes == aos && lcoPath == cal.Path && mutations == old(mutations)
+//@   loop 1 invariant I2: forall j :: 0 <= j && j < #i ==> len(resps[j].Hrefs) == 1 && resps[j].Hrefs[0].Path == aos[j].Path
+//@ func caldav.(*backend).propFindAllCalendars(b, ctx, propfind, recurse) (resps, err)
+//@   requires R1: b != nil && b.Backend != nil && propfind != nil
+//@   allocates
+//@   -- without recursion: one response per calendar the backend lists, in order, under the backend's path
+//@   ensures C1: err == nil && !recurse ==> len(resps) == len(calList(b.Backend, ctx)) && (forall j :: 0 <= j && j < len(resps) ==> len(resps[j].Hrefs) == 1 && resps[j].Hrefs[0].Path == calList(b.Backend, ctx)[j].Path)
+//@   ensures C1r: err == nil && recurse ==> len(resps) >= len(calList(b.Backend, ctx))
+//@   ensures C2: err != nil ==> pfErr(err)
+//@   ensures C3: mutations == old(mutations)
+//@   loop 1 invariant I1: (cap(resps) == 0 || fresh(resps)) && mutations == old(mutations) && abs == calList(b.Backend, ctx) && (recurse ? len(resps) >= #i : len(resps) == #i)
+//@   loop 1 invariant I2: !recurse ==> (forall j :: 0 <= j && j < #i ==> len(resps[j].Hrefs) == 1 && resps[j].Hrefs[0].Path == abs[j].Path)
+//@ spec principalOf(b *backend, r *http.Request) string = calPrincipal(b.Backend, reqContext(r))
+//@ spec homeSetOf(b *backend, r *http.Request) string = calHomeSet(b.Backend, reqContext(r))
+//@ func caldav.(*backend).PropFind(b, r, propfind, depth) (ms, err)
+//@   requires R1: servedCB(b) && validReq(r) && propfind != nil
+//@   allocates
+//@   ensures P0: err == nil ==> ms != nil
+//@   ensures P1: err != nil ==> ms == nil && pfErr(err)
+//@   ensures P2: mutations == old(mutations)
+//@   -- C12: a principal or home-set path other than the current user's exposes nothing
+//@   ensures G1: err == nil && lvlC(b, r) == 1 && r.URL.Path != principalOf(b, r) ==> len(ms.Responses) == 0
+//@   ensures G2: err == nil && lvlC(b, r) == 2 && r.URL.Path != homeSetOf(b, r) ==> len(ms.Responses) == 0
+//@   ensures G5: err == nil && lvlC(b, r) >= 5 ==> len(ms.Responses) == 0
+//@   -- C12: the operation belonging to the level, with the request path unchanged
+//@   ensures L3: lvlC(b, r) == 3 ==> gcalCalls == old(gcalCalls) + 1 && gcalPath == r.URL.Path
+//@   ensures L3n: lvlC(b, r) != 3 ==> gcalCalls == old(gcalCalls)
+//@   ensures L4: lvlC(b, r) == 4 ==> gcoCalls == old(gcoCalls) + 1 && gcoPath == r.URL.Path
+//@   ensures L4n: lvlC(b, r) != 4 ==> gcoCalls == old(gcoCalls)
+//@   -- C11: the resources in scope, each once, under the backend's path
+//@   ensures S0: err == nil && lvlC(b, r) == 0 ==> len(ms.Responses) == 1
+//@   ensures S1a: err == nil && lvlC(b, r) == 1 && r.URL.Path == principalOf(b, r) && depth == internal.DepthZero ==> len(ms.Responses) == 1 && len(ms.Responses[0].Hrefs) == 1 && ms.Responses[0].Hrefs[0].Path == r.URL.Path
+//@   ensures S1b: err == nil && lvlC(b, r) == 1 && r.URL.Path == principalOf(b, r) && depth == internal.DepthOne ==> len(ms.Responses) == 2 && len(ms.Responses[1].Hrefs) == 1 && ms.Responses[1].Hrefs[0].Path == homeSetOf(b, r)
+//@   ensures S1c: err == nil && lvlC(b, r) == 1 && r.URL.Path == principalOf(b, r) && depth == internal.DepthInfinity ==> len(ms.Responses) >= 2 + len(calList(b.Backend, reqContext(r)))
+//@   ensures S2a: err == nil && lvlC(b, r) == 2 && r.URL.Path == homeSetOf(b, r) && depth == internal.DepthZero ==> len(ms.Responses) == 1 && len(ms.Responses[0].Hrefs) == 1 && ms.Responses[0].Hrefs[0].Path == r.URL.Path
+//@   ensures S2b: err == nil && lvlC(b, r) == 2 && r.URL.Path == homeSetOf(b, r) && depth == internal.DepthOne ==> len(ms.Responses) == 1 + len(calList(b.Backend, reqContext(r)))
+//@   |   && (forall j :: 0 <= j && j < len(calList(b.Backend, reqContext(r))) ==> len(ms.Responses[1 + j].Hrefs) == 1 && ms.Responses[1 + j].Hrefs[0].Path == calList(b.Backend, reqContext(r))[j].Path)
+//@   ensures S3a: err == nil && lvlC(b, r) == 3 && depth == internal.DepthZero ==> len(ms.Responses) == 1 && len(ms.Responses[0].Hrefs) == 1 && ms.Responses[0].Hrefs[0].Path == gcalResult(b.Backend, reqContext(r), r.URL.Path).Path
+//@   ensures S3b: err == nil && lvlC(b, r) == 3 && depth != internal.DepthZero ==> len(ms.Responses) == 1 + len(lcoRes) && lcoPath == gcalResult(b.Backend, reqContext(r), r.URL.Path).Path
+//@   |   && (forall j :: 0 <= j && j < len(lcoRes) ==> len(ms.Responses[1 + j].Hrefs) == 1 && ms.Responses[1 + j].Hrefs[0].Path == lcoRes[j].Path)
+//@   ensures S4: err == nil && lvlC(b, r) == 4 ==> len(ms.Responses) == 1 && len(ms.Responses[0].Hrefs) == 1 && gcoRes != nil && ms.Responses[0].Hrefs[0].Path == gcoRes.Path
+
+//@ -- the remaining methods of the internal.Backend implementation (C12 path unchanged, C13 errors / no mutation after a
+//@ -- local refusal, C04 clause e: the conditional headers reach the backend unaltered, C10 headers of the answer)
+//@ ghost pcoRes *CalendarObject
+//@ func caldav.(*backend).Put(b, w, r) (err)
+//@   requires R1: servedCB(b) && validReq(r) && w != nil && wstatus(w) == 0 && respHeader(w) != r.Header
+//@   allocates
+//@   assigns ghost:rstatus, ghost:hv
+//@   -- either exactly one PutCalendarObject for the request path with both conditional headers unaltered, or a local 4xx and no mutation
+//@   ensures U1: (pcoCalls == old(pcoCalls) + 1 && pcoPath == r.URL.Path && mutations == old(mutations) + 1 && pcoOpts != nil
+//@   |     && string(pcoOpts.IfMatch) == old(hdr(r, "If-Match")) && string(pcoOpts.IfNoneMatch) == old(hdr(r, "If-None-Match")) && (err == nil || beErr(err)))
+//@   |   || (pcoCalls == old(pcoCalls) && mutations == old(mutations) && err != nil && local4xx(err))
+//@   ensures U2: err != nil ==> (beErr(err) || local4xx(err)) && wstatus(w) == 0
+//@   ensures U3: err == nil ==> wstatus(w) == 201
+//@ func caldav.(*backend).HeadGet(b, w, r) (err)
+//@   requires R1: servedCB(b) && validReq(r) && w != nil && wstatus(w) == 0
+//@   allocates
+//@   assigns ghost:rstatus, ghost:hv
+//@   ensures H1: gcoCalls == old(gcoCalls) + 1 && gcoPath == r.URL.Path && mutations == old(mutations)
+//@   ensures H2: err != nil ==> beErr(err) || fromEnv(err)
+//@   ensures H4: wstatus(w) == 0 || wstatus(w) == 200
+//@   ensures H3: err == nil && gcoRes != nil && gcoRes.ETag != "" ==> hget(hv, respHeader(w), "ETag") == quote(gcoRes.ETag)
+//@ func caldav.(*backend).PropPatch(b, r, update) (resp, err)
+//@   ensures X1: resp == nil && httpCode(err) == 501 && mutations == old(mutations)
+//@ func caldav.(*backend).Copy(b, r, dest, recursive, overwrite) (created, err)
+//@   ensures X1: !created && httpCode(err) == 501 && mutations == old(mutations)
+//@ func caldav.(*backend).Move(b, r, dest, overwrite) (created, err)
+//@   ensures X1: !created && httpCode(err) == 501 && mutations == old(mutations)
+
+//@ -- ---------------------------------------------------------------------------------------
+//@ -- The CalDAV handler: one request (C12 routing, C13 status classes and no mutation after a refusal).
+//@ -- internal.Handler.ServeHTTP and its handle* helpers are inlined; the calls through internal.Backend resolve to
+//@ -- the backend methods above (the dynamic type is fixed by this function).
+//@ spec mountOfC(h *Handler) string = hasSuffix(h.Prefix, "/") ? substr(h.Prefix, 0, len(h.Prefix) - 1) : h.Prefix
+//@ spec lvlHC(h *Handler, r *http.Request) int = levelOf(mountOfC(h), r.URL.Path)
+//@ spec routedC(r *http.Request) bool = r.URL.Path != "/.well-known/caldav"
+//@ func caldav.(*Handler).handleReport(h, w, r) (err)
+//@   requires R1: h != nil && h.Backend != nil && validReq(r) && w != nil && wstatus(w) == 0
+//@   requires R2: qcoCalls == 0 && gcoCalls == 0
+//@   allocates
+//@   ensures E1: err != nil ==> okErr(err)
+//@   ensures E2: mutations == old(mutations)
+//@   ensures E3: err == nil ==> wstatus(w) == 207
+//@   ensures E4: wstatus(w) == 0 || wstatus(w) == 207
+//@ func caldav.(*Handler).ServeHTTP(h, w, r)
+//@   requires R1: h != nil && h.Backend != nil && mountOK(mountOfC(h)) && validReq(r) && w != nil && wstatus(w) == 0 && respHeader(w) != r.Header
+//@   requires R2: qcoCalls == 0 && gcoCalls == 0 && !leakTracked && servedErr == nil
+//@   allocates
+//@   -- C12: collection creation only at collection depth, refused with 403 elsewhere; the request path reaches the backend unchanged
+//@   ensures MK1: routedC(r) && r.Method == "MKCOL" && lvlHC(h, r) != 3 ==> wstatus(w) == 403 && mutations == old(mutations)
+//@   ensures MK2: routedC(r) && r.Method == "MKCOL" && mutations != old(mutations) ==> lvlHC(h, r) == 3 && ccalCalls == old(ccalCalls) + 1 && ccalCal != nil && ccalCal.Path == r.URL.Path
+//@   ensures MK3: routedC(r) && r.Method == "MKCOL" && wstatus(w) == 201 ==> mutations == old(mutations) + 1
+//@   ensures DEL1: routedC(r) && r.Method == "DELETE" ==> dcoCalls == old(dcoCalls) + 1 && dcoPath == r.URL.Path
+//@   ensures PUT1: routedC(r) && r.Method == "PUT" && mutations != old(mutations) ==> pcoCalls == old(pcoCalls) + 1 && pcoPath == r.URL.Path && pcoOpts != nil
+//@   |   && string(pcoOpts.IfMatch) == old(hdr(r, "If-Match")) && string(pcoOpts.IfNoneMatch) == old(hdr(r, "If-None-Match"))
+//@   -- C12: a PROPFIND addressed to a principal or home-set path other than the current user's exposes nothing
+//@   ensures PF1: routedC(r) && r.Method == "PROPFIND" && wstatus(w) == 207 && servedErr == nil && lvlHC(h, r) == 1 && r.URL.Path != calPrincipal(h.Backend, reqContext(r)) ==> servedMS != nil && len(servedMS.Responses) == 0
+//@   ensures PF2: routedC(r) && r.Method == "PROPFIND" && wstatus(w) == 207 && servedErr == nil && lvlHC(h, r) == 2 && r.URL.Path != calHomeSet(h.Backend, reqContext(r)) ==> servedMS != nil && len(servedMS.Responses) == 0
+//@   ensures PF3: routedC(r) && r.Method == "PROPFIND" && lvlHC(h, r) == 3 ==> gcalCalls <= old(gcalCalls) + 1 && (gcalCalls == old(gcalCalls) + 1 ==> gcalPath == r.URL.Path)
+//@   -- C13: a 5xx answer stems from the backend or the environment (or is the 501 of an unimplemented method), and a
+//@   -- request that changed something was either carried out or failed inside the backend
+//@   ensures S5: wstatus(w) >= 500 ==> (servedErr != nil && (beErr(servedErr) || fromEnv(servedErr) || httpCode(servedErr) == 501)) || (!routedC(r) && calPrincipalErr(h.Backend, reqContext(r)) != nil)
+//@   ensures S4: mutations != old(mutations) ==> (r.Method == "PUT" || r.Method == "DELETE" || r.Method == "MKCOL") && (wstatus(w) < 300 || (servedErr != nil && beErr(servedErr)))
+//@   ensures S3: !routedC(r) ==> mutations == old(mutations)
+//@   ensures S2: r.Method != "GET" && r.Method != "HEAD" ==> wstatus(w) != 0
